@@ -99,6 +99,24 @@ PROPS["C05"] = {
     "explanation": "backend differential vs reference model", "assumptions": ["labels are opaque tokens (equality only)"],
 }
 
+PROPS["C04"] = {
+    "modules": ["harness.c04"], "level": "model_checking", "design_ref": "DESIGN.md 2/C04",
+    "level_text": "One inductive step from a bounded symbolic store state on both store flavours: for each operation kind with symbolic arguments the snapshot "
+                  "(content and internal ids) of every other graph is compared before/after, whether the operation returns or raises; clone content and "
+                  "clone/source independence are postconditions.",
+    "level_note": XH_NOTE + STORE_NOTE + " Store of 2-3 graphs with 1-2 nodes each; histories are covered one step at a time from that state family, not as sequences.",
+    "explanation": "store isolation frame conditions", "assumptions": ["labels are opaque tokens (equality only)"],
+}
+
+PROPS["C20"] = {
+    "modules": ["harness.c20"], "level": "model_checking", "design_ref": "DESIGN.md 2/C20",
+    "level_text": "(a) The real store methods of both flavours run with the lock replaced by a counting lock; every sequence of 2 (thorough: 3) store "
+                  "operations with symbolic graph ids / graph variants / NodeID truthiness must leave the lock free and released exactly once per call, on "
+                  "return and on raise. (b) see level_note.",
+    "level_note": XH_NOTE + " Only exceptions the real code raises for inputs of the documented types are considered (no fault injection).",
+    "explanation": "lock balance on every path", "assumptions": ["single-thread lock model: double release raises, re-acquire while held is reported as would-block"],
+}
+
 NOT_APPLICABLE = {
     "C01": "every value on the GraphML/JSON text path crosses expat/lxml/json C code and temp files, where a symbolic value is "
            "concretised; what remains would be concrete sampling, i.e. a different technique (store-level half is decided under C04/C20)",
